@@ -1337,7 +1337,32 @@ func listenerRandomCase(t *testing.T, id int, lg *vlog, rep *vreport, rng *vrng,
 				c.pkt(d)
 			}
 		case r < 74: // junk
-			switch rng.intn(4) {
+			switch rng.intn(6) {
+			case 4, 5: // a 24+ byte datagram with ANY cmd / frg bytes that is not one of the three
+				// FEC type words (e.g. f1 01, 00 f1): by the layout a packet without FEC, conv at 0
+				cmd, frg := byte(rng.intn(256)), byte(rng.intn(256))
+				if rng.chance(50) {
+					cmd = []byte{0xf1, 0xf2, 0xf3}[rng.intn(3)]
+				}
+				if rng.chance(20) {
+					cmd, frg = 0, []byte{0xf1, 0xf2, 0xf3}[rng.intn(3)]
+				}
+				if (cmd == 0xf1 || cmd == 0xf2 || cmd == 0xf3) && frg == 0 {
+					frg = byte(1 + rng.intn(255))
+				}
+				conv := p.conv
+				if rng.chance(40) {
+					conv = p.conv + 1 + uint32(rng.intn(3))
+				}
+				sn := uint32(0)
+				if rng.chance(50) {
+					sn = listenerSnNonzero(rng)
+				}
+				b := listenerSeg(conv, cmd, frg, uint16(listenerU32(rng)), listenerU32(rng), sn, listenerU32(rng), rng.bytes(rng.intn(30)))
+				if cmd >= 81 && cmd <= 84 { // a well-formed command after all: keep the core out of it
+					binary.LittleEndian.PutUint32(b[20:], 0xfffffff0) // impossible length: the core rejects it
+				}
+				c.pkt(c.good(p.idx, "raw-oddcmd", b, true, conv, sn, nil))
 			case 0: // shorter than any header
 				b := rng.bytes(rng.intn(12))
 				if c.block == nil {
